@@ -49,6 +49,8 @@ def run(ctx: core.Ctx) -> int:
         _check_return(ctx, plan, rel, "ManagedFilter._process_model", "python")
     nplans += cpp_part(ctx)
     ctx.floor("STEPPLAN", nplans, 10, "step plans (1 Python + 4 C++ instantiations, 2 directions each)")
+    from . import c06 as _c06
+    _c06.config_pass(ctx)
     mag_gen(ctx)
     return core.finish(ctx, explanation="E5: IR-level symbolic execution of the step functions under direction scenarios, "
                                         "sign analysis + provenance + effects", **META)
